@@ -18,6 +18,7 @@ DECIDED += '; R6 also: a port is allocated in the (domain, type) space it is the
 DECIDED += '; R7 demultiplexing keys are rebuilt from (ip, port): the remote half of every connection-index key and the connected-UDP peer comparison (no IPv6 scope id / flow label)'
 DECIDED += '; a failed connect closes the socket it auto-bound and a closing wildcard listener sweeps its half-open children (shared C13-R3 / R4)'
 DECIDED += "; R4's listener clause follows the polarity of the test on the connection's state (the listener only behind a failed lookup or a dead connection)"
+DECIDED += '; every transition of the close handshake is implemented (shared C13-R10)'
 ASSUMPTIONS = []
 
 K = "turmoil_net::kernel::Kernel::"
